@@ -652,3 +652,70 @@ class _GuardClauses(ast.NodeTransformer):
 
 
 TRANSFORMS["guard_clauses"] = _GuardClauses
+
+
+def _package_defaults(src):
+    """name -> (parameter names without self, {parameter: constant default}) for functions / methods / constructors defined exactly once in the package"""
+    sigs = _package_signatures(src)
+    found = {}
+    for root, dirs, files in os.walk(src):
+        for f in files:
+            if not f.endswith(".py") or f == "symmetry_data.py":
+                continue
+            t = ast.parse(open(os.path.join(root, f)).read())
+            for node in ast.walk(t):
+                if isinstance(node, ast.ClassDef):
+                    for m in node.body:
+                        if isinstance(m, ast.FunctionDef):
+                            found.setdefault(node.name if m.name == "__init__" else m.name, []).append((m, True))
+            for node in t.body:
+                if isinstance(node, ast.FunctionDef):
+                    found.setdefault(node.name, []).append((node, False))
+    out = {}
+    for name, ps in sigs.items():
+        if len(found.get(name, ())) != 1:
+            continue
+        fn, is_method = found[name][0]
+        a = fn.args
+        names = [x.arg for x in a.args]
+        d = {n: v for n, v in zip(names[len(names) - len(a.defaults):], a.defaults) if isinstance(v, ast.Constant)}
+        if d and not a.kwarg:
+            out[name] = (ps, d)
+    return out
+
+
+class _ExplicitDefaults(ast.NodeTransformer):
+    """every call of a package function / method / constructor passes the constant defaults it relied on explicitly, by keyword"""
+    sigs = {}
+    n = 0
+
+    def visit_Call(self, node):
+        self.generic_visit(node)
+        f = node.func
+        name = f.attr if isinstance(f, ast.Attribute) else f.id if isinstance(f, ast.Name) else None
+        if isinstance(f, ast.Attribute):
+            chain = ast.unparse(f.value).split(".")
+            if "ext" in chain or chain[0] in ("ase", "np", "numpy", "spglib", "nx", "networkx", "scipy", "sklearn", "itertools", "math", "super()"):
+                return node
+        if name not in self.sigs or any(isinstance(a, ast.Starred) for a in node.args) or any(k.arg is None for k in node.keywords):
+            return node
+        ps, d = self.sigs[name]
+        if len(node.args) > len(ps):
+            return node
+        given = set(ps[:len(node.args)]) | {k.arg for k in node.keywords}
+        for p in ps:
+            if p in d and p not in given:
+                node.keywords.append(ast.keyword(arg=p, value=ast.Constant(value=d[p].value)))
+                _ExplicitDefaults.n += 1
+        return node
+
+
+TRANSFORMS["explicit_defaults"] = _ExplicitDefaults
+_transform_tree_kw = transform_tree
+
+
+def transform_tree(src, dst, kind):
+    if kind == "explicit_defaults":
+        foreign = _foreign_names()
+        _ExplicitDefaults.sigs = {k: v for k, v in _package_defaults(src).items() if k not in foreign}
+    _transform_tree_kw(src, dst, kind)
